@@ -82,8 +82,17 @@ Holds(name, ww, e) ==
             /\ PreparedOK(ww, e, e.obs.ok.prepared2, e.shift)
             /\ PreparedOK(ww, e, e.obs.ok.prepared3, 0)
 
-Failing(ww, e) == {name \in Names : ~Holds(name, ww, e)}
+\* Paths off the lattice (FreeTransect) are judged structurally only: the columns prepared for plotting are exactly the
+\* segments, in their order - one column, one pair of distance bounds and one cell index per segment
+FreeOK(e) == /\ e.obs.ok.tdlinear = e.obs.ok.seglinear
+             /\ e.obs.ok.ncols = Len(e.obs.ok.seglinear) /\ e.obs.ok.nbounds = Len(e.obs.ok.seglinear)
+Failing(ww, e) ==
+  IF e.a = "FreeTransect"
+  THEN (IF ~Ok(e) THEN {"Completed"} ELSE {}) \cup (IF Ok(e) /\ ~FreeOK(e) THEN {"ColumnsAreSegments"} ELSE {})
+  ELSE {name \in Names : ~Holds(name, ww, e)}
+       \cup (IF Ok(e) /\ e.obs.ok.tdlinear # [k \in 1..Len(e.obs.ok.segments) |-> e.obs.ok.segments[k].linear] THEN {"ColumnsAreSegments"} ELSE {})
 SeenOf(ww, e) ==
+  IF e.a = "FreeTransect" THEN {"FreeTransect"} \cup (IF Ok(e) /\ Len(e.obs.ok.seglinear) > 0 THEN {"free-with-segments"} ELSE {}) ELSE
   LET P == Points(PathOf(e))  cells == CellsOf(ww) IN
   {e.a, ww.conv}
   \cup (IF ModelSteps(P, cells) = {} THEN {"misses-model"} ELSE {})
